@@ -263,12 +263,41 @@ def end_line(sc, res):
     return {"ev": "End", "outcome": "return", "exc": None, "lens": [len(getattr(m, s)) for s in SERIES]}
 
 
-def trace_process(rng, sc, with_std=True):
+def fit_desc(f):
+    return {"alpha": F(f.alpha), "a": [F(v) for v in f.a], "b": [F(v) for v in f.b]}
+
+
+def fit_oracle(sc, membrane, include_zero=False):
+    """what the PUBLIC best-fit search produces from each component's permeances in the curve set, with the options
+    the non-ideal models imply (m = 0 for a single curve), and the membrane's public activation energies"""
+    from pyvaporation.optimizer import Measurements, find_best_fit
+    cs = sc["curves"]
+    single = len(cs.diffusion_curves) == 1
+    m1 = Measurements.from_diffusion_curves_first(cs)
+    m2 = Measurements.from_diffusion_curves_second(cs)
+    f1 = find_best_fit(data=m1, n=None, m=0 if single else None, include_zero=include_zero, component_index=0)
+    f2 = find_best_fit(data=m2, n=None, m=0 if single else None, include_zero=include_zero, component_index=1)
+    ea = []
+    for comp in (sc["mix"].first_component, sc["mix"].second_component):
+        try:
+            ea.append(F(membrane.calculate_activation_energy(comp)))
+        except Exception:  # noqa: BLE001
+            ea.append(0.0)
+    return {"single": single, "orc": [fit_desc(f1), fit_desc(f2)], "Ea": ea}
+
+
+def trace_process(rng, sc, with_std=True, with_fits=False):
     perv = prepare(rng, sc)
     if perv is None:
         return None, None
     res = run_process(perv, sc)
     tr = [start_line(sc, res)]
+    if with_fits and sc["curves"] is not None and res["outcome"] == "return":
+        fo = fit_oracle(sc, sc["membrane"])
+        tr[0].update({"hasFits": True, "single": fo["single"], "fits_orc": fo["orc"], "Ea": fo["Ea"],
+                      "fits_ret": [fit_desc(f) for f in res["model"].permeance_fits]})
+    else:
+        tr[0].update({"hasFits": False})
     if res["outcome"] == "return":
         tr.extend(state_lines(perv, sc, res, with_std))
     tr.append(end_line(sc, res))
@@ -291,7 +320,7 @@ def record_job(job):
         sc = scenario(rng, kind=kind, removal=rem)
         if opts.get("maxN"):
             sc["N"] = min(sc["N"], opts["maxN"])
-        tr, res = trace_process(rng, sc, with_std=opts.get("with_std", True))
+        tr, res = trace_process(rng, sc, with_std=opts.get("with_std", True), with_fits=opts.get("with_fits", False))
         if tr is None:
             stats["outcomes"]["unprepared"] = stats["outcomes"].get("unprepared", 0) + 1
             continue
@@ -333,3 +362,51 @@ def twin0_job(job):
         if t is not None:
             out.append(t)
     return out
+
+
+def nicurve_trace(rng):
+    """non_ideal_diffusion_curve on a synthetic curve set, with the public best-fit search as oracle"""
+    mix = gen.some_mixture(rng, p_builtin=0.6)
+    membrane = make_membrane(rng, mix)
+    T = rng.uniform(300.0, 350.0)
+    single_off = rng.random() < 0.5
+    cs = make_curve_set(rng, mix, t_center=None if single_off else T, n_curves=None if single_off else rng.choice([1, 2, 3]))
+    perv = pv.Pervaporation(membrane=membrane, mixture=mix)
+    sc = {"mix": mix, "curves": cs}
+    basis = rng.choice(["weight", "weight", "molar"])
+    x0 = rng.uniform(0.1, 0.6)
+    c0 = pv.Composition(p=x0, type=basis)
+    model = rng.choice(["NRTL", "UNIQUAC"])
+    mode = rng.choice(["vac", "temp", "press"])
+    n = rng.randrange(2, 7)
+    P0 = None
+    kw = dict(diffusion_curve_set=cs, feed_temperature=T, initial_feed_composition=c0, delta_composition=rng.uniform(0.005, 0.04),
+              number_of_steps=n, permeate_temperature=rng.uniform(200.0, T - 25.0) if mode == "temp" else None,
+              permeate_pressure=rng.uniform(0.0, 3.0) if mode == "press" else None, calculation_type=model)
+    if rng.random() < 0.5:
+        u = rng.choice([KG, "SI", "GPU"])
+        P0 = (pv.Permeance(gen.logu(rng, 1e-3, 0.2)).convert(u, mix.first_component),
+              pv.Permeance(gen.logu(rng, 1e-5, 1e-2)).convert(u, mix.second_component))
+        kw["initial_permeances"] = P0
+    try:
+        d = perv.non_ideal_diffusion_curve(**kw)
+    except Exception as e:  # noqa: BLE001
+        return [{"ev": "NIStart", "outcome": "raise", "exc": type(e).__name__, "hasFits": False}]
+    fo = fit_oracle(sc, membrane)
+    tr = [{"ev": "NIStart", "outcome": "return", "hasFits": True, "single": fo["single"], "fits_orc": fo["orc"], "Ea": fo["Ea"],
+           "T": F(T), "Tcurve": F(cs.diffusion_curves[0].feed_temperature), "x0w": F(c0.to_weight(mix).p), "basis": basis,
+           "N": n, "P0given": P0 is not None, "model": model, "mode": mode, "mixname": mix.name,
+           "P0kg": [0.0, 0.0] if P0 is None else [F(P0[0].convert(KG, mix.first_component).value), F(P0[1].convert(KG, mix.second_component).value)]}]
+    for j in range(len(d.feed_compositions)):
+        tr.append({"ev": "NIPoint", "j": j, "x": F(d.feed_compositions[j].p), "xtype": d.feed_compositions[j].type,
+                   "P": [F(d.permeances[j][0].value), F(d.permeances[j][1].value)], "Punits": d.permeances[j][0].units,
+                   "J": [F(d.partial_fluxes[j][0]), F(d.partial_fluxes[j][1])]})
+    tr.append({"ev": "NIEnd", "nx": len(d.feed_compositions), "nP": len(d.permeances), "nJ": len(d.partial_fluxes)})
+    return tr
+
+
+def nicurve_job(job):
+    import random
+    seed, n = job
+    rng = random.Random(seed)
+    return [nicurve_trace(rng) for _ in range(n)]
